@@ -23,6 +23,7 @@ def protocol_units(tier):
                             tier, {"kind": kind, "case": case, "entry": entry}))
         out.append(("script", SIDECARS, H, "execute_segment", f"{kind}.execute", PROPS, tier, {"kind": kind}))
         out.append(("script", SIDECARS, H, "close_segment", f"{kind}.close", PROPS, tier, {"kind": kind}))
+        out.append(("script", SIDECARS, H, "init_segment", f"{kind}.__init__", PROPS, tier, {"kind": kind}))
     if tier == "thorough":
         out += sweep_units()
     return out
